@@ -3,13 +3,13 @@
 D=$(dirname $1); cd $D
 sed '/^Definition bad/,$d' $(basename $1) > dbg_tmp.v
 cat >> dbg_tmp.v <<EOT
-Eval vm_compute in (option_map (fun c : mgr_case => let '(cfg, env, orders, mem, tr, t0, files, next, fa, panicked, emerge, maint) := c in
+Eval vm_compute in (option_map (fun c : mgr_case => let '(tag, cfg, env, orders, mem, tr, t0, files, next, fa, panicked, emerge, maint) := c in
   (next, fa, panicked, emerge, maint, files,
-  match replay (manager_gates cfg env mem) (init_rstate tr t0 files) with
+  match replay (handler tag cfg (with_morder env (hd [] orders)) mem) (init_rstate tr t0 files) with
   | RDone (GNext n, m') rs => (1, Some n, map te_idx (r_rest rs), am_failed_at (mm_an m'), r_files rs, firstn 6 (r_sites rs))
   | RDone (GTail tc, m') rs => (2, None, map te_idx (r_rest rs), am_failed_at (mm_an m'), r_files rs, firstn 6 (r_sites rs))
   | RPanic s rs => (3, None, map te_idx (r_rest rs), [], r_files rs, firstn 6 (r_sites rs))
   | RMismatch s c g rs => (4, None, map te_idx (r_rest rs), [], r_files rs, s :: firstn 6 (r_sites rs))
-  end, match replay (manager_gates cfg env mem) (init_rstate tr t0 files) with RMismatch s c g rs => Some (c, option_map (fun e => (te_idx e, te_call e)) g) | _ => None end)) (nth_error cases $2)).
+  end, match replay (handler tag cfg (with_morder env (hd [] orders)) mem) (init_rstate tr t0 files) with RMismatch s c g rs => Some (c, option_map (fun e => (te_idx e, te_call e)) g) | _ => None end)) (nth_error cases $2)).
 EOT
 coqc -Q /verif/coq Mysync -w none dbg_tmp.v 2>&1 | tail -${3:-40}
